@@ -60,6 +60,27 @@ fn persisted_json(rng: &mut Rng) -> Vec<u8> {
     }
 }
 
+/// What a restarted state machine inherits from the previous one: the committed storage and the
+/// embedder's configuration (app ids, versions), at a later time.
+pub struct Carry { pub init: Init, pub committed: BTreeMap<Vec<u8>, SVal>, pub wall: i128 }
+
+/// The configuration of a restart: same apps, but the embedder presets cohort / user-counting
+/// fields in a fresh random combination (so that "stored values fill only unset fields" is exercised
+/// on records the library itself wrote).
+pub fn restart_init(rng: &mut Rng, c: Carry) -> Init {
+    let mut init = c.init;
+    for app in init.presets.iter_mut() {
+        app.cohort = Cohort { id: opt_pick(rng, &["preset-id", ""]), hint: opt_pick(rng, &["preset-hint"]), name: opt_pick(rng, &["preset-name"]) };
+        app.user_counting = if rng.chance(1, 3) { UserCounting::ClientRegulatedByDate(Some(*rng.pick(&[1u32, 4774]))) } else { UserCounting::ClientRegulatedByDate(None) };
+        if rng.chance(1, 4) { app.version = Version::from(*rng.pick(&[[1, 2, 3, 4], [2, 0, 0, 0]])); }
+    }
+    if rng.chance(1, 3) { init.osver = rng.pick(&["1.0", "2.0"]).to_string(); }
+    init.committed = c.committed;
+    init.wall = c.wall + *rng.pick(&[0i128, 90 * S, 3600 * S, -30 * S]);
+    init.mono = *rng.pick(&[0i128, 5 * S]);
+    init
+}
+
 pub fn gen_init(rng: &mut Rng) -> Init {
     let wall = *rng.pick(&[1_700_000_000i128 * S + 123_456_789, 1_700_000_000 * S, 5 * S + 1500, -3 * S - 1500]);
     let mono = *rng.pick(&[0i128, 1000 * S + 7, 77]);
@@ -291,8 +312,7 @@ fn ctx_from_pnext(line: &str) -> (String, String) {
 pub struct UnitCase { pub input: String, pub output: String, pub class: String }
 
 /// Run one history against the real state machine and cut it into per-unit cases.
-pub fn run_history(rng: &mut Rng, nunits: usize, oneshot: bool) -> Vec<UnitCase> {
-    let init = gen_init(rng);
+pub fn run_history(rng: &mut Rng, init: Init, nunits: usize, oneshot: bool) -> (Vec<UnitCase>, Carry) {
     let hub: H = Arc::new(Mutex::new(Hub::new(init.wall, init.mono)));
     { let mut h = hub.lock().unwrap(); h.committed = init.committed.clone(); h.cup_sign = init.cup; }
     let config = Config { updater: Updater { name: init.name.clone(), version: Version::from(init.uver) },
@@ -432,7 +452,9 @@ pub fn run_history(rng: &mut Rng, nunits: usize, oneshot: bool) -> Vec<UnitCase>
         }
         cases.push(UnitCase { input, output: out.join("\t"), class: format!("{}/{}/{:?}", mode, d.path, d.end_kind) });
     }
-    cases
+    drop(runner);
+    let (committed, wall) = { let h = hub.lock().unwrap(); (h.committed.clone(), h.wall) };
+    (cases, Carry { init, committed, wall })
 }
 
 pub fn run(o: &Opts, rng: &mut Rng) -> Sink {
@@ -443,7 +465,23 @@ pub fn run(o: &Opts, rng: &mut Rng) -> Sink {
         let oneshot = rng.chance(1, 4);
         let nunits = if oneshot { 1 } else { 1 + rng.below(4) as usize };
         let mut r = rng.fork();
-        let res = std::panic::catch_unwind(std::panic::AssertUnwindSafe(|| run_history(&mut r, nunits, oneshot)));
+        let res = std::panic::catch_unwind(std::panic::AssertUnwindSafe(|| {
+            let init = gen_init(&mut r);
+            let (mut cases, carry) = run_history(&mut r, init, nunits, oneshot);
+            // now and then the process "restarts": a new state machine on the storage the first one committed
+            let mut restarts = 0;
+            let mut carry = carry;
+            while restarts < 2 && r.chance(1, 3) {
+                restarts += 1;
+                let init2 = restart_init(&mut r, carry);
+                let one = r.chance(1, 4);
+                let n2 = if one { 1 } else { 1 + r.below(3) as usize };
+                let (more, c2) = run_history(&mut r, init2, n2, one);
+                for mut c in more { c.class = format!("restart-{}", c.class); cases.push(c); }
+                carry = c2;
+            }
+            cases
+        }));
         match res {
             Ok(cases) => for c in cases {
                 sink.bump(&format!("gen:{}", c.class.split('/').next().unwrap()));
